@@ -262,6 +262,7 @@ def judge(case, m):
     for step in range(int(rng.integers(2, 6))):
         new = df.iloc[rng.integers(0, len(df), size=int(rng.integers(1, 9)))].reset_index(drop=True)
         new["x"] = new["x"].fillna(0.0)
+        new["zz_unused"] = 1.5 + step  # a column no formula uses: numeric here, text in the frame evaluated FROM the result
         mode = "error"
         if step % 2 == 1:
             col = cat_cols[int(rng.integers(0, len(cat_cols)))]
@@ -284,6 +285,7 @@ def judge(case, m):
             kind0, obj0, _ = kept[-1]
             plain = df.iloc[rng.integers(0, len(df), size=3)].reset_index(drop=True)
             plain["x"] = plain["x"].fillna(0.0)
+            plain["zz_unused"] = "text"
             try:
                 formulae.config["EVAL_UNSEEN_CATEGORIES"] = "error"
                 kept.append((kind0, obj0.evaluate_new_data(plain), len(plain)))
@@ -317,6 +319,16 @@ def judge(case, m):
                                         key="derived:new-groups-not-reported")
             except Exception as e:
                 m.note("derived-newdata-raised:" + type(e).__name__)
+                # a frame the design itself evaluates is evaluated from a matrix derived from it just as well
+                m.ev("rows-aligned")
+                try:
+                    with core.shadow():
+                        formulae.config["EVAL_UNSEEN_CATEGORIES"] = "error"
+                        (dm.common if kind0 == "common" else dm.group).evaluate_new_data(plain)
+                    m.violation("rows-aligned", f"{kind0}: evaluating a frame FROM a derived matrix raised {type(e).__name__}: {e}; the design "
+                                "itself evaluates that frame", key="derived:raises-where-direct-works")
+                except Exception:
+                    pass
         # the original matrices and every earlier result must still be consistent
         with_guard = core.mon()
         check_design(dm, with_guard)
